@@ -21,7 +21,7 @@ import (
 var c19Methods = []struct {
 	name string
 	nse  bool
-}{{"Unary", false}, {"Pure", true}, {"Idem", false}, {"NoRule", false}}
+}{{"Unary", false}, {"Pure", true}, {"Idem", false}, {"NoRule", false}, {"SStream", false}, {"CStream", false}, {"Bidi", false}} // (the issue side uses the first three)
 
 var c19Msgs = []string{`{"name":"a","num":7}`, `{}`, `{"name":"é/😀?&=+%","tags":["x y"]}`, `{"raw":"AP8+/w==","seq":"-1"}`, `{"extraText":"` + strings.Repeat("w", 300) + `"}`}
 
@@ -278,7 +278,7 @@ func init() {
 	Register(&Check{
 		ID:    "C19",
 		Level: "exploration",
-		Rule: "Accept side (exhaustive cross): 4 methods (idempotency unset / NO_SIDE_EFFECTS / IDEMPOTENT / no rule) x HTTP methods {GET, POST, PUT, HEAD, DELETE} x client codec {proto, json, alt} x compression {none, gzip} x base64 {absent, 0, 1 unpadded, 1 padded} x 5 messages x 3 target protocols; an accepted GET is compared with the POST carrying the same content. " +
+		Rule: "Accept side (exhaustive cross): 7 methods (idempotency unset / NO_SIDE_EFFECTS / IDEMPOTENT / no rule / server, client and bidi streams) x HTTP methods {GET, POST, PUT, HEAD, DELETE} x client codec {proto, json, alt} x compression {none, gzip} x base64 {absent, 0, 1 unpadded, 1 padded} x 5 messages x 3 target protocols; an accepted GET is compared with the POST carrying the same content. " +
 			"Issue side (exhaustive cross): 5 client forms x 3 methods x client codec x target codec {proto, json, alt (not stable)} x compression x 5 messages x max-GET-URL in {generous, exact-1, exact, exact+1} where exact is the length of the URL actually issued. Non-trivial = cases failing exactly one GET precondition or within +-1 of the URL limit.",
 		Assume: []string{"requests forwarded untouched (same protocol, codec and compression) are C13's business, not judged against the URL limit"},
 		Scenarios: []Scenario{
